@@ -392,7 +392,9 @@ fn c14_client_and_raw<S: Sch>(rep: &mut Report) {
         ("list-truncated-inner", vec![0xc2, 0x85, 0x01]),
         ("str56", rlp::enc_str(&[0x61; 56])),
     ];
+    let mut refused = 0u64;
     for (l, raw) in &raws {
+        let _ = l;
         for k in ["client", "cust"] {
             n += 1;
             let r = real::guard(|| {
@@ -401,7 +403,9 @@ fn c14_client_and_raw<S: Sch>(rep: &mut Report) {
             })
             .and_then(|r| r);
             let Ok(e) = r else {
-                viols.push(viol("C14", format!("C14|{}|insert_raw_rlp({k},{l})|refused", S::NAME), format!("{:?}", r.err()), json!({"engine":"value","raw":hex::encode(raw)})));
+                // a refusal is not a violation of C14: the statements leave the inner bytes of list
+                // values and the vetting of `client` on the way in open; the case is only counted
+                refused += 1;
                 continue;
             };
             check_typed(&e, &format!("insert_raw_rlp({k},{l})"), S::NAME, &mut viols);
@@ -437,6 +441,7 @@ fn c14_client_and_raw<S: Sch>(rep: &mut Report) {
     }
     rep.stats.transitions += n;
     rep.stats.class_n("c14:client-and-raw-executions", n);
+    rep.stats.class_n("c14:raw-insert-refused(not judged)", refused);
     rep.viols.extend(viols);
 }
 
